@@ -36,7 +36,7 @@ func TestVerifPrioFp64(t *testing.T) {
 		t.Fatal("fp64 order differs from the oracle's")
 	}
 	runPrio[fp64.Fp, *fp64.Fp, fp64.Vec, fp64.Poly](t, prioDesc{"fp64", p64, 8, 32,
-		&bf.Gen{P: p64, Bits: 64, C: 1 << 32, Extra: []*big.Int{bf.B("0xffffffff"), bf.B("0xffffffff00000000"), bf.B("0x100000000"), bf.B("0xfffffffe00000002")}}, true})
+		&bf.Gen{P: p64, Bits: 64, C: 1 << 32, MontRBits: 64, Extra: []*big.Int{bf.B("0xffffffff"), bf.B("0xffffffff00000000"), bf.B("0x100000000"), bf.B("0xfffffffe00000002")}}, true})
 }
 
 func TestVerifPrioFp128(t *testing.T) {
@@ -45,7 +45,7 @@ func TestVerifPrioFp128(t *testing.T) {
 		t.Fatal("fp128 order differs from the oracle's")
 	}
 	runPrio[fp128.Fp, *fp128.Fp, fp128.Vec, fp128.Poly](t, prioDesc{"fp128", p128, 16, 66,
-		&bf.Gen{P: p128, Bits: 128, C: 28, Extra: []*big.Int{bf.Pow2(64), bf.B("0xffffffffffffffe40000000000000000"), bf.B("0xffffffffffffffe4"), bf.Pow2(127)}}, false})
+		&bf.Gen{P: p128, Bits: 128, C: 28, MontRBits: 128, Extra: []*big.Int{bf.Pow2(64), bf.B("0xffffffffffffffe40000000000000000"), bf.B("0xffffffffffffffe4"), bf.Pow2(127)}}, false})
 }
 
 func runPrio[E comparable, F arith.Fp[E], V arith.Vec[V, E], P arith.Poly[P, E]](t *testing.T, d prioDesc) {
